@@ -279,6 +279,14 @@ def run(ctx):
                 who = [e for e in evs if e.kind == 'assign' and e.lhs[0] == 'field' and e.lhs[1] in (ov, ('un', '*', ov)) and e.lhs[2].endswith('::%s_actor_' % side) and 'get_issuer' in repr(e.rhs)]
                 buf = [e for e in evs if e.kind == 'call' and e.q.endswith('::set_%s_buff' % side) and len(e.args) == 2]
                 okb = len(buf) == 1 and ('get_%s_buff' % side) in repr(buf[0].args[0]) and ('get_%s_buff_size' % side) in repr(buf[0].args[1])
+                # a comm that is pushed will be examined by the later searches: it must carry the filter and the match data of its side
+                if pushes:
+                    mf = [e for e in evs if e.kind == 'assign' and e.lhs[0] == 'field' and e.lhs[1] in (ov, ('un', '*', ov)) and e.lhs[2].endswith('::match_fun') and 'get_match_fun' in repr(e.rhs)]
+                    mf += [e for e in evs if e.kind == 'call' and e.q.endswith('::operator=') and e.obj is not None and e.obj[0] == 'field' and e.obj[2].endswith('::match_fun') and 'get_match_fun' in repr(e.args)]
+                    md = [e for e in evs if e.kind == 'assign' and e.lhs[0] == 'field' and e.lhs[1] in (ov, ('un', '*', ov)) and e.lhs[2].endswith('::%s_match_data_' % side) and 'get_match_data' in repr(e.rhs)]
+                    ctx.check(len(mf) >= 1 and len(md) >= 1, 'R4', '%s path that queues the comm (%s): it carries the filter and the match data of its side' % (name, pushes[0].q.rsplit('::', 1)[-1]), where(f, pushes[0].line),
+                              'match_fun stored x%d, %s_match_data_ stored x%d%s' % (len(mf), side, len(md), '' if mf and md else ': the queued comm is matched by the next opposite request whatever it asked for'),
+                              key='R4|%s|queued comm carries its filter' % name)
                 ctx.check(len(who) == 1 and okb, 'R4', '%s path (matched=%s): %s_actor_ and set_%s_buff(buffer, size of that buffer)' % (name, matched, side, side), where(f),
                           '%s_actor_ x%d, set_%s_buff%s' % (side, len(who), side, [ex.pretty(a) for a in buf[0].args] if buf else ' missing'), key='R4|%s|actor and buffer set' % name)
 
